@@ -283,7 +283,10 @@ class Material(MutableMapping[str, str]):
 
     def export(self, f: TextIO) -> None:
         """Write the material back to a file."""
-        f.write(self.shader + '\n\t{\n')
+        shader = self.shader
+        if not shader or shader.startswith(('/', '#')) or any(c in BARE_DISALLOWED for c in shader):
+            shader = f'"{shader}"'
+        f.write(shader + '\n\t{\n')
         for param in self._params.values():
             name = param.name
             value = param.value
